@@ -40,6 +40,9 @@ var c20Shapes = []string{
 	// declarations of namespace prefixes nobody uses, named like the decoded attributes: an
 	// exclusive-c14n signature does not cover them, so they can be added to a SIGNED root
 	"xmlns-ID-after", "xmlns-Destination-after", "xmlns-InResponseTo-after", "xmlns-Version-after", "xmlns-ID-before",
+	// the same, with the prefix also used by an element inside the enveloped Signature's KeyInfo
+	// (a part of the message no digest covers)
+	"xmlns-ID-used-in-keyinfo", "xmlns-Destination-used-in-keyinfo", "xmlns-InResponseTo-used-in-keyinfo",
 }
 
 var c20EncIssuerOnce sync.Once
@@ -188,6 +191,15 @@ func c20Apply(shape string, s string) string {
 		return insLast(`xmlns:Version="1.1"`)
 	case "xmlns-ID-before":
 		return insFirst(`xmlns:ID="_evil-id"`)
+	case "xmlns-ID-used-in-keyinfo", "xmlns-Destination-used-in-keyinfo", "xmlns-InResponseTo-used-in-keyinfo":
+		name := strings.Split(shape, "-")[1]
+		val := map[string]string{"ID": "_evil-id", "Destination": "https://evil.example.com/acs", "InResponseTo": "_evil-req"}[name]
+		k := strings.Index(s, "</ds:KeyInfo>")
+		if k < 0 || k < gt {
+			return insLast(`xmlns:` + name + `="` + val + `"`)
+		}
+		s = s[:k] + "<" + name + ":note/>" + s[k:]
+		return s[:gt] + ` xmlns:` + name + `="` + val + `"` + s[gt:]
 	case "encrypted-issuer-before-issuer", "encrypted-issuer-after-issuer", "encrypted-issuer-at-end":
 		if issStart < 0 {
 			return s
@@ -364,7 +376,7 @@ func c20Replay(raw json.RawMessage) ([]string, string) {
 }
 
 func c20Run(r *mc.Run) {
-	r.Rule = "every document of C08's layout space (same generator and bounds) + attacker-shaped documents with an unsigned root: every combination of <=2 (quick) / <=3 (thorough) of 43 shadowing/layout shapes (namespace-prefixed and duplicated root attributes before/after the real one, two Issuers in either order, foreign-namespace / nested Issuer first, comments/CDATA/character references/whitespace/child element in Issuer, character references and raw TAB/LF/CR in an attribute value, prolog variants, quote style, attribute order, BOM, default namespace, prefix rebinding, an EncryptedAssertion whose plaintext is another Issuer before/after the Issuer or at the end, declarations of unused namespace prefixes named like the decoded attributes) x raw/DEFLATE x IdP issuer configured or not, for SSO Responses and LogoutResponses with signed and unsigned roots (shapes applied after signing); differential oracle; non-trivial = full validation accepted, so the two decoders were compared; distinct = distinct case"
+	r.Rule = "every document of C08's layout space (same generator and bounds) + attacker-shaped documents with an unsigned root: every combination of <=2 (quick) / <=3 (thorough) of 46 shadowing/layout shapes (namespace-prefixed and duplicated root attributes before/after the real one, two Issuers in either order, foreign-namespace / nested Issuer first, comments/CDATA/character references/whitespace/child element in Issuer, character references and raw TAB/LF/CR in an attribute value, prolog variants, quote style, attribute order, BOM, default namespace, prefix rebinding, an EncryptedAssertion whose plaintext is another Issuer before/after the Issuer or at the end, declarations of unused namespace prefixes named like the decoded attributes) x raw/DEFLATE x IdP issuer configured or not, for SSO Responses and LogoutResponses with signed and unsigned roots (shapes applied after signing); differential oracle; non-trivial = full validation accepted, so the two decoders were compared; distinct = distinct case"
 	var cases []c20Case
 	for _, g := range c08Cases(r) {
 		g := g
